@@ -282,7 +282,10 @@ fn handle(req: &Value) -> Value {
                 .and_then(|x| x.as_str())
                 .unwrap_or("")
                 .to_string();
-            json!({"ok": dep_json(&crate::data::dependency_from_string(&s))})
+            match crate::data::dependency_from_string(&s) {
+                Ok(d) => json!({"ok": dep_json(&d)}),
+                Err(e) => json!({"err": "dep", "msg": e.to_string()}),
+            }
         }
         _ => json!({"bad": "unknown op"}),
     }
